@@ -145,7 +145,7 @@ func newCutStats() *cutStats {
 }
 
 // compareDumps: strict equality, else lenient equality (known deviations), else violation.
-func compareDumps(cut int, stage string, a, b *fullDump) []Failure {
+func compareDumps(cut int, stage string, a, b *fullDump, relax bool) []Failure {
 	var out []Failure
 	sd := diffTables(a.strict, b.strict)
 	if len(sd) == 0 {
@@ -156,6 +156,11 @@ func compareDumps(cut int, stage string, a, b *fullDump) []Failure {
 		if d.Table == "index" {
 			// one failure per differing index row
 			for _, key := range diffIndexKeys(a.lenient["index"], b.lenient["index"]) {
+				if relax && strings.Contains(indexKeyClass(key), "service.<name>") {
+					out = append(out, Failure{Cut: cut, Stage: stage, Signature: map[string]any{"kind": maskKind[mCheckRefresh]},
+						Detail: "index table row " + key + " (a check with stale service fields was deleted or rewritten after the cut)", Tables: []tableDiff{d}})
+					continue
+				}
 				out = append(out, Failure{Cut: cut, Stage: stage, Signature: map[string]any{"kind": "index-row-differs", "key": indexKeyClass(key)},
 					Detail: "index table row " + key + " differs after restore", Tables: []tableDiff{d}})
 			}
@@ -251,7 +256,7 @@ func indexKeyClass(k string) string {
 	return k
 }
 
-func compareQueries(cut int, stage string, a, b []queryResult) []Failure {
+func compareQueries(cut int, stage string, a, b []queryResult, relax bool) []Failure {
 	var out []Failure
 	if len(a) != len(b) {
 		return []Failure{{Cut: cut, Stage: stage, Signature: map[string]any{"kind": "query-list-length"}, Detail: "query lists differ in length"}}
@@ -262,7 +267,7 @@ func compareQueries(cut int, stage string, a, b []queryResult) []Failure {
 		if a[i].strict == b[i].strict {
 			continue
 		}
-		la, lb := a[i].render(mAll), b[i].render(mAll)
+		la, lb := a[i].renderR(mAll, relax), b[i].renderR(mAll, relax)
 		if la != lb {
 			bad++
 			if bad <= 4 {
@@ -274,7 +279,7 @@ func compareQueries(cut int, stage string, a, b []queryResult) []Failure {
 		// which deviations are needed to explain the difference
 		found := false
 		for _, m := range maskList {
-			if a[i].render(mAll&^m) != b[i].render(mAll&^m) {
+			if a[i].renderR(mAll&^m, relax) != b[i].renderR(mAll&^m, relax) {
 				found = true
 				if _, ok := known[m]; !ok {
 					known[m] = fmt.Sprintf("query %s: index %d before, %d after restore", a[i].name, a[i].idx, b[i].idx)
@@ -284,7 +289,7 @@ func compareQueries(cut int, stage string, a, b []queryResult) []Failure {
 		if !found {
 			// several deviations each suffice: attribute to the first in maskList order
 			for _, m := range maskList {
-				if a[i].render(m) == b[i].render(m) {
+				if a[i].renderR(m, relax) == b[i].renderR(m, relax) {
 					if _, ok := known[m]; !ok {
 						known[m] = fmt.Sprintf("query %s: index %d before, %d after restore", a[i].name, a[i].idx, b[i].idx)
 					}
@@ -304,6 +309,7 @@ func compareQueries(cut int, stage string, a, b []queryResult) []Failure {
 // donorRun applies the whole history to a fresh FSM and records, for every cut, the snapshot
 // bytes, the dump and the query results, plus every command result and the final dump.
 type donorRun struct {
+	stale   []bool // per step: the donor holds a check with stale service fields
 	snaps   [][]byte
 	snapErr []error
 	dumps   []*fullDump
@@ -316,6 +322,7 @@ func runDonor(cmds []wcmd, cuts map[int]bool, st *cutStats) *donorRun {
 	defer d.close()
 	r := &donorRun{}
 	for k := 0; k <= len(cmds); k++ {
+		r.stale = append(r.stale, staleChecks(d.store()))
 		if cuts == nil || cuts[k] || k == len(cmds) {
 			b, err := d.snapshot()
 			r.snaps = append(r.snaps, b)
@@ -350,6 +357,10 @@ func checkCut(cmds []wcmd, k int, dr *donorRun, st *cutStats) []Failure {
 		return []Failure{{Cut: k, Stage: "restore", Signature: map[string]any{"kind": "restore-failed"}, Detail: err.Error()}}
 	}
 	var out []Failure
+	relax := false
+	for i := k; i < len(dr.stale); i++ {
+		relax = relax || dr.stale[i]
+	}
 	rd := dumpStore(m.store())
 	if st != nil {
 		st.restores++
@@ -365,18 +376,27 @@ func checkCut(cmds []wcmd, k int, dr *donorRun, st *cutStats) []Failure {
 			}
 		}
 	}
-	out = append(out, compareDumps(k, "dump", dr.dumps[k], rd)...)
+	out = append(out, compareDumps(k, "dump", dr.dumps[k], rd, relax)...)
 	rq := runQueries(m.store(), uni)
 	if st != nil {
 		st.queries += len(rq)
 	}
-	out = append(out, compareQueries(k, "query", dr.queries[k], rq)...)
+	out = append(out, compareQueries(k, "query", dr.queries[k], rq, relax)...)
 	// suffix
 	for i := k; i < len(cmds); i++ {
 		data, _ := hex.DecodeString(cmds[i].Data)
 		res := canonResult(m.apply(cmds[i].Idx, data))
 		if st != nil {
 			st.applies++
+		}
+		if res != dr.results[i] && strings.Contains(res, "peering secret is already in use") && !strings.HasPrefix(dr.results[i], "error:") {
+			// consequence of the dialer-secret finding: the restore recorded a dialing peer's stream
+			// secret as a used UUID, so the restored server refuses a generated secret with that id
+			// (the generator draws secrets from a pool of four; real ids are random UUIDs)
+			out = append(out, Failure{Cut: k, Stage: "suffix-result", Signature: map[string]any{"kind": maskKind[mDialerSecret]},
+				Detail: fmt.Sprintf("command %d (%s) after the cut: accepted by the donor, refused by the restored server", i, cmds[i].Desc),
+				Extra: map[string]string{"donor": clip(dr.results[i]), "restored": clip(res)}})
+			return out
 		}
 		if res != dr.results[i] {
 			out = append(out, Failure{Cut: k, Stage: "suffix-result", Signature: map[string]any{"kind": "suffix-result-differs", "command": cmds[i].Kind},
@@ -386,9 +406,9 @@ func checkCut(cmds []wcmd, k int, dr *donorRun, st *cutStats) []Failure {
 	}
 	if k < len(cmds) {
 		fd := dumpStore(m.store())
-		out = append(out, compareDumps(k, "suffix-dump", dr.dumps[len(cmds)], fd)...)
+		out = append(out, compareDumps(k, "suffix-dump", dr.dumps[len(cmds)], fd, relax)...)
 		fq := runQueries(m.store(), uni)
-		out = append(out, compareQueries(k, "suffix-query", dr.queries[len(cmds)], fq)...)
+		out = append(out, compareQueries(k, "suffix-query", dr.queries[len(cmds)], fq, relax)...)
 	}
 	return out
 }
@@ -614,6 +634,12 @@ func main() {
 			}
 			h.Shrunk = append(h.Shrunk, ShrunkReplay{Signature: f.Signature, Cmds: sc, Cut: sk, Failure: sf})
 		}
+		emit(h)
+	}
+	// corpus: the histories of coq/Snapshot/Witness.v (the refutation witness and the non-vacuity
+	// example), replayed on the implementation on every run
+	for i, sc := range corpusScripts() {
+		h := runModelHistory(1000+i, 0, "corpus", len(sc), sc)
 		emit(h)
 	}
 	for i := 0; i < nm; i++ {
